@@ -410,6 +410,11 @@ class Epoch(object):
             b = 2.0 - a + iint(a / 4.0)
         jde = (iint(365.25 * (y + 4716.0))
                + iint(30.6001 * (m + 1.0)) + d + b - 1524.5)
+        if jde < 2299160.5:
+            # Instants before 1582-10-15 0h belong to the Julian calendar: take
+            # back the Gregorian correction (hours, minutes and seconds folded
+            # into 'd' may have rounded it up to October 5.0, 1582)
+            jde -= b
         # If enabled, let's convert from UTC to TT, adding the needed seconds
         deltasec = 0.0
         if local:
